@@ -206,12 +206,18 @@ class LinearOperator(EditableModule):
     @contextmanager
     def uselinopparams(self, *params):
         methodname = "mm"
+        # the tensor that every declared name holds now; the given tensors are
+        # installed according to the map of the names that shared a tensor when
+        # getlinopparams() was last called outside a substitution
+        _orig_params_ = self.getparams(methodname)
+        self._unique_params_frozen = getattr(self, "_unique_params_frozen", 0) + 1
         try:
-            _orig_params_ = self.getuniqueparams(methodname)
+            self._get_unique_params_idxs(methodname, _orig_params_)
             self.setuniqueparams(methodname, *params)
             yield self
         finally:
-            self.setuniqueparams(methodname, *_orig_params_)
+            self._unique_params_frozen -= 1
+            self.setparams(methodname, *_orig_params_)
 
     ############# implemented functions ################
     def mv(self, x: torch.Tensor) -> torch.Tensor:
